@@ -193,12 +193,22 @@ def fits_model(f):
         if i["kind"] not in ("", "public", "weak"):
             bad.append("import " + i["kind"])
 
+    pkg = f.get("package")
+    if pkg is not None and (len(pkg) >= 512 or pkg.count(".") > 100):
+        bad.append("package name limits")
+
     def walk(e):
         k = e["k"]
         if k in ("field", "map", "group") and e.get("num") is None:
             bad.append("missing tag")
         if k == "map" and e["key"] not in SCALAR_COQ:
             bad.append("map key")
+        if k in ("field", "map"):
+            for o in e.get("opts", []):
+                if o["val"]["t"] in ("float", "other"):
+                    bad.append("option value kind")
+                if o["name"] == "default" and e.get("type") in ("float", "double"):
+                    bad.append("float default")
         for x in e.get("body", []) + e.get("elems", []):
             if isinstance(x, dict) and "k" in x and x["k"] not in ("value",):
                 walk(x)
@@ -1469,3 +1479,321 @@ class Mutator:
         fi = self.pick(cands)
         files[fi]["imports"].remove(self.pick(files[fi]["imports"]))
         return True
+
+
+# ================================================================ run-time helpers of the C01 / C02 plugins
+COQ_MODEL_FILES = ["Common/Corr.v", "Model/MiniProto.v", "Model/Lower.v", "Model/ValiditySpec.v", "Model/ProtocDescriptor.v",
+                   "Model/Resolve.v", "Model/ProtocLookup.v", "Model/Validate.v", "Model/SpecOracle.v"]
+HEADER = ("From Coq Require Import List NArith ZArith Bool.\nImport ListNotations.\n"
+          "From PV Require Import Common.Corr Model.MiniProto Model.Lower Model.Validate Model.SpecOracle.\nOpen Scope N_scope.\n")
+
+P2 = 'syntax = "proto2";\n'
+P3 = 'syntax = "proto3";\n'
+ED = 'edition = "2023";\n'
+
+
+def _corpus():
+    c = []
+
+    def add(label, text, extra=None):
+        files = {"t.proto": text}
+        if extra:
+            files.update(extra)
+        c.append((label, files))
+    for n in [0, 1, 18999, 19000, 19001, 19999, 20000, 536870911, 536870912, 2147483647, 4294967296]:
+        add("field-number-%d" % n, P2 + "message M { optional int32 f = %d; }" % n)
+    for n in [0, 1, 19000, 19999, 536870911, 536870912]:
+        add("ext-range-single-%d" % n, P2 + "message M { extensions %d; }" % n)
+        add("reserved-single-%d" % n, P2 + "message M { reserved %d; }" % n)
+    for a, t in [("ext-1-max", "extensions 1 to max;"), ("ext-5-4", "extensions 5 to 4;"), ("ext-5-5", "extensions 5 to 5;"),
+                 ("rsv-5-4", "reserved 5 to 4;"), ("rsv-touch", "reserved 1 to 5, 5 to 9;"), ("rsv-adjacent", "reserved 1 to 5, 6 to 9;"),
+                 ("rsv-unsorted", "reserved 6 to 9, 1 to 6;"), ("rsv-nested", "reserved 1 to 10, 3 to 4;"),
+                 ("rsv-three", "reserved 1 to 10; reserved 2; reserved 12;"), ("ext-touch", "extensions 1 to 5, 5 to 9;"),
+                 ("ext-adjacent", "extensions 1 to 5, 6 to 9;"), ("ext-rsv-touch", "extensions 1 to 5; reserved 5 to 9;"),
+                 ("rsv-ext-touch", "extensions 5 to 9; reserved 1 to 5;"), ("ext-rsv-adjacent", "extensions 1 to 5; reserved 6 to 9;"),
+                 ("rsv-ext-adjacent", "extensions 6 to 9; reserved 1 to 5;"), ("rsv-inside-ext", "extensions 1 to 100; reserved 50;"),
+                 ("ext-inside-rsv", "extensions 50; reserved 1 to 100;"), ("ext-rsv-multi", "extensions 1 to 10, 20 to 30; reserved 15, 25;"),
+                 ("ext-rsv-multi2", "extensions 10, 30; reserved 1 to 5, 25 to 35;"), ("ext-rsv-multi3", "reserved 1 to 100; extensions 200, 50;"),
+                 ("ext-rsv-equal-start", "reserved 7 to 9; extensions 7;"), ("rsv-max", "reserved 1000 to max; optional int32 f = 536870911;")]:
+        add(a, P2 + "message M { %s }" % t)
+    for a, t in [("field-rsv-start", "reserved 5 to 9; optional int32 f = 5;"), ("field-rsv-end", "reserved 5 to 9; optional int32 f = 9;"),
+                 ("field-after-rsv", "reserved 5 to 9; optional int32 f = 10;"), ("field-before-rsv", "reserved 5 to 9; optional int32 f = 4;"),
+                 ("field-2nd-rsv", "reserved 5 to 9, 20 to 30; optional int32 f = 20;"), ("field-2nd-rsv-end", "reserved 5 to 9, 20 to 30; optional int32 f = 30;"),
+                 ("field-between-rsv", "reserved 5 to 9, 20 to 30, 40; optional int32 f = 15; optional int32 g = 39; optional int32 h = 41;"),
+                 ("field-ext-start", "extensions 5 to 9; optional int32 f = 5;"), ("field-ext-end", "extensions 5 to 9; optional int32 f = 9;"),
+                 ("field-after-ext", "extensions 5 to 9; optional int32 f = 10;"), ("dup-tag", "optional int32 a = 1; optional int32 b = 1;"),
+                 ("dup-tag-far", "optional int32 a = 1; optional int32 b = 2; optional int32 c = 3; optional int32 d = 1;"),
+                 ("dup-name", "optional int32 a = 1; optional int32 a = 2;"), ("rsv-name", 'reserved "a"; optional int32 a = 1;'),
+                 ("rsv-name-other", 'reserved "a"; optional int32 b = 1;'), ("rsv-name-twice", 'reserved "a", "a";'),
+                 ("rsv-name-ident", 'reserved a;'), ("rsv-name-invalid", 'reserved "9a";'), ("oneof-empty", "oneof o { }"),
+                 ("oneof-nolabel", "oneof o { int32 a = 1; }"), ("nolabel", "int32 a = 1;"), ("group-lower", "optional group g = 1 { }"),
+                 ("group", "optional group Foo = 1 { optional int32 a = 1; } repeated group Bar_Baz = 2 {} oneof o { group Qux = 3 {} }"),
+                 ("map", "map<string,int32> foo_bar = 1; map<string,M> _x = 2; map<int32,string> a1_b2__c = 3; map<bool, bytes> Foo=4;"),
+                 ("map-entry-clash", "map<string,int32> foo = 1; message FooEntry {}"),
+                 ("map-entry-ref", "map<string,int32> foo = 1; optional FooEntry e = 2;"),
+                 ("msgset", "option message_set_wire_format = true; extensions 4 to max;"),
+                 ("msgset-max", "option message_set_wire_format = true; extensions 4 to 2147483646;"),
+                 ("msgset-max1", "option message_set_wire_format = true; extensions 4 to 2147483647;"),
+                 ("msgset-fields", "option message_set_wire_format = true; extensions 4 to max; optional int32 a = 1;"),
+                 ("msgset-norange", "option message_set_wire_format = true;"),
+                 ("msgset-false", "option message_set_wire_format = false; optional int32 a = 1;")]:
+        add(a, P2 + "message M { %s }" % t)
+    for a, t in [("enum-rsv-touch", "A=0; reserved 1 to 5, 5 to 9;"), ("enum-rsv-adjacent", "A=0; reserved 1 to 5, 6 to 9;"),
+                 ("enum-val-rsv-start", "A=5; reserved 5 to 9;"), ("enum-val-rsv-end", "A=9; reserved 5 to 9;"),
+                 ("enum-val-after-rsv", "A=10; reserved 5 to 9;"), ("enum-val-before-rsv", "A=4; reserved 5 to 9;"),
+                 ("enum-neg-rsv", "A=-4; reserved -5 to -1;"), ("enum-rsv-max", "A=0; reserved 5 to max;"),
+                 ("enum-rsv-max-val", "A=2147483647; reserved 5 to max;"), ("enum-val-max", "A=2147483647;"),
+                 ("enum-val-max1", "A=2147483648;"), ("enum-val-min", "A=-2147483648;"), ("enum-val-min1", "A=-2147483649;"),
+                 ("enum-dup", "A=0; B=0;"), ("enum-alias", "option allow_alias=true; A=0; B=0;"),
+                 ("enum-alias-unused", "option allow_alias=true; A=0; B=1;"), ("enum-alias-false", "option allow_alias=false; A=0; B=1;"),
+                 ("enum-alias-false-dup", "option allow_alias=false; A=0; B=0;"), ("enum-empty", ""), ("enum-rsv-name", 'A=0; reserved "A";'),
+                 ("enum-rsv-5-4", "A=0; reserved 5 to 4;")]:
+        add(a, P2 + "enum E { %s }" % t)
+    add("p3-enum-first-nonzero", P3 + "enum E { A=1; }")
+    add("p3-enum-first-zero", P3 + "enum E { A=0; B=1; }")
+    add("p3-enum-second-zero", P3 + "enum E { B=1; A=0; }")
+    add("p2-enum-first-nonzero", P2 + "enum E { A=1; }")
+    add("ed-enum-first-nonzero", ED + "enum E { A=1; }")
+    add("p3-required", P3 + "message M { required int32 a = 1; }")
+    add("p3-optional", P3 + "message M { optional int32 a = 1; }")
+    add("p3-group", P3 + "message M { optional group G = 1 { } }")
+    add("p3-default", P3 + "message M { int32 a = 1 [default = 1]; }")
+    add("p3-ext-range", P3 + "message M { extensions 1 to 5; }")
+    add("ed-optional", ED + "message M { optional int32 a = 1; }")
+    add("ed-required", ED + "message M { required int32 a = 1; }")
+    add("ed-plain", ED + "message M { int32 a = 1; repeated int32 b = 2; reserved x, y; }")
+    add("ed-reserved-string", ED + 'message M { reserved "x"; }')
+    for syn, lbl in [(P3, ""), (P2, "optional ")]:
+        s = "p3" if syn == P3 else "p2"
+        add(s + "-json-default-default", syn + "message M { %sint32 foo_bar = 1; %sint32 fooBar = 2; }" % (lbl, lbl))
+        add(s + "-json-custom-default", syn + 'message M { %sint32 a = 1 [json_name="b"]; %sint32 b = 2; }' % (lbl, lbl))
+        add(s + "-json-custom-custom", syn + 'message M { %sint32 a = 1 [json_name="c"]; %sint32 b = 2 [json_name="c"]; }' % (lbl, lbl))
+        add(s + "-json-explicit-default", syn + 'message M { %sint32 fooBar = 1 [json_name="fooBar"]; %sint32 foo_bar = 2 [json_name="fooBar"]; }' % (lbl, lbl))
+        add(s + "-json-custom-hides", syn + 'message M { %sint32 foo_bar = 1 [json_name="x"]; %sint32 fooBar = 2; }' % (lbl, lbl))
+        add(s + "-json-case", syn + 'message M { %sint32 Foo = 1; %sint32 foo = 2; }' % (lbl, lbl))
+        add(s + "-json-lead", syn + 'message M { %sint32 _foo = 1; %sint32 Foo = 2; }' % (lbl, lbl))
+        add(s + "-json-trail", syn + 'message M { %sint32 foo_ = 1; %sint32 foo = 2; }' % (lbl, lbl))
+        add(s + "-json-three", syn + 'message M { %sint32 x = 1 [json_name="y"]; %sint32 z = 2 [json_name="y"]; %sint32 y = 3; }' % (lbl, lbl, lbl))
+        add(s + "-enum-json", syn + "enum E { E_A = 0; A = 1; }")
+        add(s + "-enum-json-alias", syn + "enum E { option allow_alias=true; E_A = 0; A = 0; }")
+    add("json-ext", P2 + 'message M { extensions 1 to 10; } extend M { optional int32 a = 1 [json_name="b"]; }')
+    add("json-ext-default", P2 + 'message M { extensions 1 to 10; } extend M { optional int32 foo_bar = 1 [json_name="fooBar"]; }')
+    add("json-brackets", P2 + 'message M { optional int32 a = 1 [json_name="[b]"]; }')
+    add("p3-opt", P3 + "message M { optional int32 a = 1; optional int32 b = 2; oneof o { int32 c = 3; } }")
+    add("p3-opt-collide", P3 + "message M { optional int32 a = 1; int32 _a = 2; optional int32 _b = 3; int32 X_a = 4; optional int32 X_b=5; }")
+    add("p3-opt-collide-nested", P3 + "message M { optional int32 a = 1; message _a {} enum E { _b = 0; } optional int32 b = 2; }")
+    add("p3-opt-interleaved", P3 + "message M { optional int32 a = 1; oneof o { int32 c = 3; } optional int32 b = 2; oneof p { int32 d = 4; } }")
+    for a, t in [("ext-ok", "optional int32 a = 5; optional int32 b = 9;"), ("ext-below", "optional int32 a = 4;"),
+                 ("ext-above", "optional int32 a = 10;"), ("ext-dup", "optional int32 a = 5; optional int32 b = 5;"),
+                 ("ext-required", "required int32 a = 5;"), ("ext-empty", ""), ("ext-repeated", "repeated int32 a = 5;")]:
+        add(a, P2 + "message M { extensions 5 to 9; } extend M { %s }" % t)
+    add("ext-2nd-range", P2 + "message M { extensions 5 to 9, 20; } extend M { optional int32 a = 20; optional int32 b=21; }")
+    add("ext-big", P2 + "message M { extensions 5 to max; } extend M { optional int32 a = 536870911; }")
+    add("ext-too-big", P2 + "message M { extensions 5 to max; } extend M { optional int32 a = 536870912; }")
+    add("ext-19000", P2 + "message M { extensions 5 to max; } extend M { optional int32 a = 19000; }")
+    add("ext-msgset", P2 + "message M { option message_set_wire_format = true; extensions 4 to max; } message N {} extend M { optional N n = 2147483646; }")
+    add("ext-msgset-scalar", P2 + "message M { option message_set_wire_format = true; extensions 4 to max; } extend M { optional int32 n = 100; }")
+    add("ext-msgset-repeated", P2 + "message M { option message_set_wire_format = true; extensions 4 to max; } message N {} extend M { repeated N n = 100; }")
+    add("ext-not-message", P2 + "enum E { A = 0; } extend E { optional int32 a = 1; }")
+    add("ext-unknown", P2 + "extend Nope { optional int32 a = 1; }")
+    add("p3-extend-msg", P3 + 'import "x.proto"; extend M { int32 a = 5; }', {"x.proto": P2 + "message M { extensions 5 to max; }"})
+    add("sym-msg-enum", P2 + "message M {} enum M { A = 0; }")
+    add("sym-enum-values", P2 + "enum E { A = 0; } enum F { A = 0; }")
+    add("sym-enum-values-nested", P2 + "message M { enum E { A = 0; } } message N { enum F { A = 0; } }")
+    add("sym-enum-value-msg", P2 + "enum E { A = 0; } message A {}")
+    add("sym-pkg-msg", P2 + "package a.b; message a {}")
+    add("sym-pkg-collision", P2 + 'import "x.proto"; message a {}', {"x.proto": P2 + "package a.b; message M {}"})
+    add("sym-across-files", P2 + 'import "x.proto"; message M {}', {"x.proto": P2 + "message M {}"})
+    add("sym-across-files-pkg", P2 + 'package p; import "x.proto"; message M { optional .M m = 1; }', {"x.proto": P2 + "message M {}"})
+    add("sym-field-nested", P2 + "message M { optional int32 a = 1; message a {} }")
+    add("sym-oneof-field", P2 + "message M { optional int32 a = 1; oneof a { int32 b = 2; } }")
+    add("type-unknown", P2 + "message M { optional Foo a = 1; }")
+    add("type-service", P2 + "message M { optional S a = 1; } service S {}")
+    add("type-scoping", P2 + "package a.b; message M { message N {} optional N x = 1; optional M.N y = 2; optional b.M.N z = 3; optional a.b.M w = 4; optional .a.b.M.N v = 5; }")
+    add("type-scoping-shadow", P2 + "package a.b; message a { } message M { optional a.b.M x = 1; }")
+    add("rpc", P2 + "service S { rpc R(M) returns (stream M); } message M {}")
+    add("rpc-unknown", P2 + "service S { rpc R(M) returns (N); } message M {}")
+    add("rpc-enum", P2 + "service S { rpc R(M) returns (E); } message M {} enum E { A = 0; }")
+    add("import-dup", P2 + 'import "x.proto"; import "x.proto";', {"x.proto": P2})
+    add("import-transitive", P2 + 'import "x.proto"; message M { optional Y y = 1; }', {"x.proto": P2 + 'import "y.proto";', "y.proto": P2 + "message Y {}"})
+    add("import-public", P2 + 'import "x.proto"; message M { optional Y y = 1; }', {"x.proto": P2 + 'import public "y.proto";', "y.proto": P2 + "message Y {}"})
+    add("defaults", P2 + "message M { optional int32 a = 1 [default = 5]; optional string s = 2 [default='x\\ny']; optional bool b = 3 [default=true]; "
+        "optional E e = 4 [default = B]; optional bytes y = 5 [default='\\001z\\377']; optional sint64 z = 6 [default = -9223372036854775808]; "
+        "optional uint64 u = 7 [default = 18446744073709551615]; } enum E { A = 0; B = 1; }")
+    for a, t in [("default-bad-enum", "optional E e = 4 [default = C];"), ("default-repeated", "repeated int32 e = 4 [default = 1];"),
+                 ("default-msg", "optional M e = 4 [default = 1];"), ("default-int32-max1", "optional int32 e = 4 [default = 2147483648];"),
+                 ("default-int32-min1", "optional int32 e = 4 [default = -2147483649];"), ("default-neg-uint", "optional uint32 e = 4 [default = -1];"),
+                 ("default-uint32-max1", "optional uint32 e = 4 [default = 4294967296];"), ("default-bool-int", "optional bool e = 4 [default = 1];"),
+                 ("default-string-ident", "optional string e = 4 [default = abc];"), ("default-twice", "optional int32 e = 4 [default = 1, default = 2];")]:
+        add(a, P2 + "message M { %s } enum E { A = 0; B = 1; }" % t)
+    add("p3-closed-enum", P3 + 'import "x.proto"; message M { E e = 1; }', {"x.proto": P2 + "enum E { A = 0; }"})
+    add("p3-closed-enum-optional", P3 + 'import "x.proto"; message M { optional E e = 1; }', {"x.proto": P2 + "enum E { A = 0; }"})
+    add("p3-closed-enum-repeated", P3 + 'import "x.proto"; message M { repeated E e = 1; }', {"x.proto": P2 + "enum E { A = 0; }"})
+    add("p3-closed-enum-map", P3 + 'import "x.proto"; message M { map<int32, E> e = 1; }', {"x.proto": P2 + "enum E { A = 0; }"})
+    add("p3-closed-enum-oneof", P3 + 'import "x.proto"; message M { oneof o { E e = 1; } }', {"x.proto": P2 + "enum E { A = 0; }"})
+    return c
+
+
+CORPUS = _corpus()
+
+
+def topo_order(asts):
+    """imports before importers (stable); files importing something outside the set keep their place"""
+    by = {f["name"]: f for f in asts}
+    out, seen = [], set()
+
+    def visit(f, stack):
+        if f["name"] in seen or f["name"] in stack:
+            return
+        for i in f["imports"]:
+            if i["path"] in by:
+                visit(by[i["path"]], stack | {f["name"]})
+        seen.add(f["name"])
+        out.append(f)
+    for f in asts:
+        visit(f, frozenset())
+    return out
+
+
+def parse_sets(ctx, filesets):
+    """filesets: list of {path: text}.  Returns per set (asts in topological order | None, reasons)."""
+    ins, idx = [], []
+    for k, fs in enumerate(filesets):
+        for p in sorted(fs):
+            ins.append({"mode": "parse", "path": p, "text": fs[p]})
+            idx.append(k)
+    outs = ctx.impl("miniproto", ins) if ins else []
+    res = [([], []) for _ in filesets]
+    for k, o in zip(idx, outs):
+        asts, why = res[k]
+        if "ast" not in o:
+            why.append("syntax: " + str(o.get("syntax_error") or o.get("panic") or o.get("crash"))[:80])
+            continue
+        why += list(o["unfit"]) + fits_model(o["ast"])
+        asts.append(o["ast"])
+    out = []
+    for k, (asts, why) in enumerate(res):
+        names = set(f["name"] for f in asts)
+        for f in asts:
+            for i in f["imports"]:
+                if i["path"] not in names:
+                    why.append("import outside the set: " + i["path"])
+        out.append((topo_order(asts) if len(asts) == len(filesets[k]) else None, why))
+    return out
+
+
+def first_by_file(files, out):
+    first = {}
+    for e in out.get("errs", []):
+        if e["file"] not in first:
+            first[e["file"]] = e["cls"]
+    return [(f["name"], first.get(f["name"])) for f in files]
+
+
+def c01_term(files, out):
+    fl = clist([cpair(cbytes(n), "None" if c is None else "(Some %s)" % CLS.get(c, "EOther")) for n, c in first_by_file(files, out)])
+    return "C01Case %s %s %s" % (clist([coq_file(f) for f in files]), cbool(out["ok"]), fl)
+
+
+def spec_term(files, ok):
+    return "SpecCase %s %s" % (clist([coq_file(f) for f in files]), cbool(ok))
+
+
+def obs_by_name(out):
+    return {fd["name"]: fd for fd in out.get("fds", [])}
+
+
+def c02_terms(files, out):
+    """(model case, spec case) for an accepted file set; None if a descriptor is missing"""
+    by = obs_by_name(out)
+    if any(f["name"] not in by for f in files):
+        return None
+    obs = clist([coq_obs_file(by[f["name"]]) for f in files])
+    fs = clist([coq_file(f) for f in files])
+    return "C02Case %s %s" % (fs, obs), "SpecDesc %s %s" % (fs, obs)
+
+
+def gen_cases(rng, nprog, nmut):
+    """[(label, asts)] : valid programs and single-rule mutants of them"""
+    progs = []
+    for _ in range(nprog):
+        g = Gen(rng)
+        files = g.program()
+        progs.append(("valid", files))
+        mu = Mutator(rng)
+        names = mu.names()
+        for _ in range(nmut):
+            nm = rng.choice(names)
+            m = mu.apply(nm, files)
+            if m is not None:
+                progs.append((nm, m))
+    return progs
+
+
+def render_sets(rng, progs):
+    ren = Renderer(rng)
+    return [{f["name"]: ren.file(f) for f in files} for _, files in progs]
+
+
+def compile_inputs(filesets, orders):
+    return [{"mode": "compile", "files": fs, "roots": order} for fs, order in zip(filesets, orders)]
+
+
+def plain_text(files):
+    from vlib import Rng
+    ren = Renderer(Rng(1), plain=True)
+    return {f["name"]: ren.file(f) for f in files}
+
+
+# ---- the protoc-made goldens and the protoc-confirmed case tables of the repository
+def golden_sets(repo):
+    """[(protoset path, [file names in the set])] is filled by the caller from the harness"""
+    import glob
+    import os
+    return sorted(glob.glob(os.path.join(repo, "internal", "testdata", "*.protoset")) +
+                  glob.glob(os.path.join(repo, "internal", "testdata", "editions", "*.protoset")))
+
+
+def golden_source(repo, name):
+    import os
+    for base in (os.path.join(repo, "internal", "testdata"), os.path.join(repo, "internal", "testdata", "editions"),
+                 os.path.join(repo, "wellknownimports")):
+        p = os.path.join(base, name)
+        if os.path.exists(p):
+            return open(p, encoding="utf-8", errors="surrogateescape").read()
+    return None
+
+
+FLOATS = ("float", "double")
+
+
+def strip_unmodelled_defaults(ast, obs):
+    """float / double defaults are outside the model: drop them on both sides"""
+    drop = set()
+
+    def walk(els, path):
+        for e in els:
+            k = e["k"]
+            if k == "field" and e["type"] in FLOATS:
+                if any(o["name"] == "default" for o in e["opts"]):
+                    e["opts"] = [o for o in e["opts"] if o["name"] != "default"]
+                    drop.add(tuple(path + [e["name"]]))
+            if k in ("message", "group"):
+                walk(e["body"], path + [e["name"]])
+                if k == "group" and False:
+                    pass
+            elif k in ("oneof", "extend"):
+                walk(e["elems"], path)
+    walk([d for d in ast["decls"] if d["k"] != "service"], [])
+
+    def clear(ms, path):
+        for m in ms:
+            for f in m["fields"] + m["extensions"]:
+                if tuple(path + [m["name"], f["name"]]) in drop:
+                    f["has_default"], f["default"] = False, ""
+            clear(m["nested"], path + [m["name"]])
+    if obs is not None:
+        clear(obs["messages"], [])
+        for f in obs["extensions"]:
+            if (f["name"],) in drop:
+                f["has_default"], f["default"] = False, ""
